@@ -387,6 +387,10 @@ def random_instance(rnd, family, stable=False):
     if r < 0.45:
         if geared and rnd.random() < 0.25:
             ops.append(redeclare())             # between a run and its continuation (same epoch, same Solver)
+        if not stable and rnd.random() < 0.2:
+            # the user re-indexes the output position and / or sets another speed between a run and its continuation
+            ops.append({'op': 'set_initial', 'pos': rnd.choice([init_pos, sig(rnd.uniform(-3, 3))]),
+                        'spd': rnd.choice([F(0), init_spd, sig(w_out * rnd.uniform(-1.2, 1.2))])})
         ops.append(run(1, rnd.randint(2, 15), cont_unit=rnd.random() < 0.6))
         if rnd.random() < 0.3:
             ops.append(run(1, rnd.randint(2, 8), cont_unit=True))
